@@ -221,7 +221,23 @@ def design_check(ctx):
         if "Error" in out or not m:
             raise ToolError("large design check of Prover.tla failed:\n" + out[-2000:])
         gen, dist = gen + int(m.group(1)), dist + int(m.group(2))
+    tlaps_proof(ctx)
     return gen, dist
+
+
+def tlaps_proof(ctx):
+    """the flag part of the design (FlagExact, FlagMonotone) is PROVED with TLAPS for any number of problems / instances"""
+    d = ctx.path("tlaps")
+    os.makedirs(d, exist_ok=True)
+    for fn in ("Prover.tla", "ProverProofs.tla"):
+        shutil.copy(os.path.join(V.SPEC, fn), d)
+    r = subprocess.run(["timeout", "1500", "tlapm", "--threads", "8", "--cleanfp", "ProverProofs.tla"], cwd=d, stdout=subprocess.PIPE, stderr=subprocess.STDOUT, text=True)
+    m = re.search(r"All (\d+) obligations proved", r.stdout)
+    shutil.rmtree(d, ignore_errors=True)
+    if not m:
+        raise ToolError("TLAPS proof ProverProofs.tla failed:\n" + r.stdout[-1500:])
+    ctx.tlaps_obligations = int(m.group(1))
+    log(f"[C10] TLAPS: all {m.group(1)} obligations of ProverProofs.tla proved (FlagExact, FlagMonotone for arbitrary constants)")
 
 
 def tlc_plans(ctx, cfg, simulate=None):
@@ -400,7 +416,9 @@ def run_C10(ctx):
         "outcome_classes_exercised": sorted({o for r in good for o in r["outcome"]}),
         "out_of_order_completions": len([r for r in good if [e["p"] for e in r["standin"] if e["ev"] == "EXIT"] !=
                                          sorted(e["p"] for e in r["standin"] if e["ev"] == "EXIT")]),
-        "rule": "design: all interleavings of Prover.tla for np<=3, n<=3, 4 outcome classes, executable present/missing; "
+        "tlaps_obligations_proved": getattr(ctx, "tlaps_obligations", 0),
+        "rule": "design: all interleavings of Prover.tla for np<=3, n<=3, 4 outcome classes, executable present/missing (thorough: np 4-5, n up to 5); "
+                "TLAPS proof of FlagExact / FlagMonotone for arbitrary constants; "
                 "runs: plans are behaviours of Prover.tla printed by TLC (exhaustive for np<=3,n<=3; simulated for np<=7,n<=8), concretised to "
                 "stand-in behaviours (28 variants of status lines / missing / unknown words / non-UTF-8 / non-zero exit / SIGKILL), each run of the "
                 "real binary validated by TLC as a behaviour of the model (two cursors, TLC chooses the merge); distinct = distinct (np, n, outcome "
